@@ -140,6 +140,28 @@ def run(chk):
     vlib.conclude_differential(chk, state, more)
     chk.coverage["samples"] = samples
     chk.coverage["distribution"] = dist
+    concurrency_probe(chk, exe)
+
+
+def concurrency_probe(chk, exe):
+    """Outside the property's quantifier (inputs, not schedules) but in its anchor file: one DataSource,
+    concurrent Loads over an abstract type whose concrete type varies.  Sequentially every answer must be
+    consistent (a violation otherwise); concurrently, inconsistent answers are the listed finding."""
+    n = 1500 if chk.tier == "quick" else 20000
+    rc, out = vlib.sh("%s race -n %d" % (exe, n), cwd=vlib.ROOT, timeout=600, env=vlib.GOENV)
+    seq = re.search(r"sequential: (\d+) inconsistent of (\d+)(.*)", out or "")
+    con = re.search(r"concurrent\(8\): (\d+) inconsistent of (\d+)(.*)", out or "")
+    chk.coverage["concurrency_probe"] = {"rc": rc, "sequential": seq.group(0)[:300] if seq else None,
+                                         "concurrent": con.group(0)[:300] if con else None}
+    if not seq or not con:
+        chk.add_violation("tie:C20/race-probe", "race probe failed rc=%s: %s" % (rc, (out or "")[-800:]), found_input=False)
+        return
+    cmd = "harness/bin/c20 race -n %d" % n
+    if int(seq.group(1)) > 0:
+        chk.add_violation("spec:shape/sequential-answer-inconsistent", seq.group(0)[:600], case={"cmd": cmd})
+    if int(con.group(1)) > 0:
+        chk.add_violation("spec:concurrent/answer-missing-fragment-fields", con.group(0)[:600], case={"cmd": cmd},
+                          key="concurrent-load-validfields-race")
 
 
 def replay(chk, path):
